@@ -37,10 +37,13 @@ def eol_variant(content, eol):
     return content
 
 
-def cell_world(tag, ci, updopt, upd, kind, state, stored_empty=False, eol='lf'):
+def cell_world(tag, ci, updopt, upd, kind, state, stored_empty=False, eol='lf', goflag=None):
     w = World(tag)
     w.add(mode_line(ci, upd))
     w.add(cfg_line(1, 'snaps', 'f', None, updopt))
+    if goflag:
+        # the test binary runs with a flag of the user's own (`-update` for golden files): not an input of the mode table
+        w.add('goflag %s %s' % goflag)
     name = b'TestCell'
     stored = {'snap': b'value one', 'json': PRETTY, 'yaml': b'a: 1\n', 'sasnap': b'value one', 'sajson': PRETTY}[kind]
     if stored_empty:
@@ -317,6 +320,37 @@ def run(ctx):
         k += 1
         ws.append(cell_world('empty-%d' % k, ci, updopt, upd, 'sasnap', 'different', stored_empty=True))
     run_suite(ctx, 'modes.spellings-and-empty', ws, known=known, chunk=500)
+    # the whole table again in a test binary that was started with a golden-file flag of the user's own (`-update`):
+    # (CI, Update option, UPDATE_SNAPS) decide, nothing else does
+    ws = []
+    for ci, updopt, upd in itertools.product([False, True], ['none', 'true', 'false'], UPDS):
+        for kind in KINDS:
+            for state in ('missing', 'different'):
+                ws.append(cell_world('flag-%d' % len(ws), ci, updopt, upd, kind, state, goflag=('update', 'true')))
+    run_suite(ctx, 'modes.foreign-flag', ws, known=known, chunk=500)
+    # a registered snapshot directory that holds nothing when Clean runs (every snapshot of it missing in a run that
+    # may not create them): Clean removes nothing, the directory included (implementation only: the model's file
+    # system has no empty directories)
+    ws = []
+    for ci, updopt, upd in [(True, 'none', ''), (True, 'none', 'clean'), (True, 'true', 'true'), (False, 'false', ''), (False, 'false', 'other')]:
+        w = World('emptydir-%d' % len(ws))
+        w.add(mode_line(ci, upd))
+        w.add(cfg_line(1, 'snaps', 'f', None, updopt))
+        w.add('fsput %s %s' % (hx('snaps/placeholder.txt'), hx(b'x')))
+        w.add('fsrm %s' % hx('snaps/placeholder.txt'))
+        w.add('begin 1 %s' % hx(b'TestEmptyDir'))
+        w.add('snap 1 1 %s' % hx(b'value'))
+        w.add('end 1')
+        before = w.add('fsdirs')
+        w.add('clean - - 1')
+
+        def exp_dirs(line, raw, ww, before=before):
+            if raw != ww.impl[before]:
+                return 'Clean changed the directories although nothing may be removed in this mode: %r -> %r' % (ww.impl[before][:200], raw[:200])
+            return None
+        w.add('fsdirs', ('readonly-clean-keeps-directories', exp_dirs))
+        ws.append(w)
+    run_suite(ctx, 'modes.empty-dir', ws, known=known, use_model=False)
     if ctx.tier == 'thorough':
         # random UPDATE_SNAPS strings for the "any other string" class
         g = Gen(ctx.seed * 1000003 + 5)
